@@ -5,10 +5,10 @@ import json, subprocess, sys
 PBT = "property-based testing: proptest-seeded choice sequences decoded into cases, custom shrinker, explicit oracle"
 CHECKS = {
     "C01": dict(engine="E2-actor+E3-cluster", technique=PBT + " (fault-injected in-process cluster of real nodes vs LWW reference model, message-fate scripts)",
-        text="150k (quick) / 8M (thorough) histories on real keyspace actors where the harness owns every delivery (each direct and batched message lost, delayed so that it overtakes others, or duplicated; repair exchanges with their two halves interleaved with other traffic) and the history ends with exactly ONE round of pairwise exchanges in a generated order, plus 60k / 3M histories on 2-4 real nodes with the real distributor and poller over a lossy in-process network; every node's documents are compared with the LWW model.",
+        text="150k (quick) / 8M (thorough) histories on real keyspace actors where the harness owns every delivery (each direct and batched message lost, delayed so that it overtakes others, or duplicated; repair exchanges with their two halves interleaved with other traffic) and the history ends with exactly ONE round of pairwise exchanges in a generated order, plus 60k / 3M histories on 2-4 real nodes with the real distributor and poller over a lossy in-process network, one step in five issuing 2-3 operations concurrently; every node's documents are compared with the LWW model of the operations that were issued (an operation = a version first written by the node its stamp names), and the newest version of every id held anywhere must have been issued by its stamp's node.",
         note="RPC transport replaced by an in-process function call (hook H-rpc), membership injected (H-members), clocks follow paused tokio time plus skew (H-clock). Document fetches are never failed, only delayed/duplicated (the poller's std::time watchdog cannot be advanced by a paused-time simulation).", ref="3 C01"),
     "C06": dict(engine="E3-cluster", technique=PBT + " (consistency-level promise checked against per-node storage right after the call, generated non-acknowledging replicas)",
-        text="100k (quick) / 3M (thorough) generated layouts x issuer x level x operation x replica behaviours on real nodes; the promise of the level is checked against storage immediately after the call returns, the error counts against the acknowledgements that came back, and later replication after healing.",
+        text="100k (quick) / 3M (thorough) generated layouts x issuer x level x operation x replica behaviours on real nodes; the promise of the level is checked against storage immediately after the call returns, the error counts against the acknowledgements that came back, and later replication after healing (LWW convergence, no version that nobody issued).",
         note="Same transport/membership/clock hooks as C01; storage failures are injected only outside repair cycles.", ref="3 C06"),
     "C13": dict(engine="E3-cluster", technique="exhaustive enumeration of add/remove sequences (bounded) + random longer sequences, model = set of registered names",
         text="All 46656 add/remove sequences of length 6 over three services (279936 of length 7 in the thorough tier), 20k random sequences up to length 12, and 20k random sequences over six services with 17 interleaving handler keys, each probed after every step with real clients against a real server state.",
@@ -23,7 +23,7 @@ CHECKS = {
         text="60k generated multi-task scripts on a current-thread runtime where the interleaving is a function of the generated yields, plus 500 x 8 runs on a 4-worker runtime; uniqueness, per-task monotonicity and register->get causality (program order and barrier chains) are checked on every run.",
         note="OS schedules on the multi-thread runtime are sampled, not enumerated. Remote counters near exhaustion are only generated on the paused runtime (the repaired clock waits for the wall clock).", ref="3 C11"),
     "C14": dict(engine="E4-turmoil", technique=PBT + " (generated fault scripts over seeded turmoil TCP + in-process reply-stall injection; per-request oracle on ids, digests, execution counts and elapsed simulated time)",
-        text="20k (quick) / 600k (thorough) client scripts with partitions, holds, releases, repairs, slow handlers and concurrent requests over hyper/h2 on turmoil's simulated TCP, plus 20k scripts on the in-process transport where the fault sits between reply head and reply body.",
+        text="20k (quick) / 600k (thorough) client scripts with partitions, holds, releases, repairs, slow handlers and concurrent requests over hyper/h2 on turmoil's simulated TCP, plus 20k scripts on the in-process transport where the fault sits between reply head and reply body; clients are built directly, cloned once or twice from a configured client or re-configured, and use send, send_owned or a context with headers.",
         note="turmoil 0.4.0 is used with one simulator fix (vendor/README.md). The turmoil client of the repository serialises requests per channel; faults act at segment granularity. Head/body stalls are only reachable through hook H-rpc.", ref="3 C14"),
     "C17": dict(engine="E5-storage", technique=PBT + " (model-based: every bundled backend vs a HashMap reference after every call, incl. close/reopen)",
         text="20k MemStore, 5k SQLite in-memory, 3k SQLite file and 5k LMDB call sequences per quick run (x30 thorough), with full read-back (iter_metadata, get of every id, multi_get, keyspace list) after every call and close/reopen at generated points.",
@@ -40,9 +40,9 @@ CHECKS = {
     "C05": dict(engine="E1-pure", technique=PBT + " (exactness oracle for diff + metamorphic 'apply the diff, nothing is left')",
         text="2M (quick) / 100M (thorough) generated replica pairs incl. purged ones and, one case in five, replicas with arbitrary gaps on an exact 1 h grid (stamps exactly on a cut-off); the diff is compared with an independently computed expectation and, inside the repair clause's precondition, applied the way the keyspace actor applies it.",
         note="The purge cut-off of a replica is observed through a will_apply probe on an unused key (the statement's 'purge cut-off for that origin').", ref="3 C05"),
-    "C07": dict(engine="E2-actor", technique=PBT + " (crash-point injection incl. inside a request, rebuilt state vs storage)",
-        text="100k (quick) / 5M (thorough) histories with a generated stop point between or inside requests (storage write done, set not updated), one or two restarts; the rebuilt set is compared with storage and with what was acknowledged.",
-        note="Process death is modelled by fencing the old storage handle; durability of the bundled backends themselves is C17's subject.", ref="3 C07"),
+    "C07": dict(engine="E2-actor+E3-cluster+E5-storage", technique=PBT + " (crash-point injection incl. inside a request, rebuilt state vs storage; node restart inside a running cluster; restarts on the real SQLite / LMDB backends)",
+        text="100k (quick) / 5M (thorough) histories with a generated stop point between or inside requests (storage write done, set not updated), one or two restarts; the rebuilt set is compared with storage and with what was acknowledged. Plus 20k / 1M cluster histories in which one of 2-4 real nodes is stopped and restarted on its storage while the others keep working (rebuilt == storage, then LWW convergence), plus 6k SQLite-file and 20k LMDB histories of 1-3 node lives on the real backends (close, reopen, load_states_from_storage, rebuilt == iter_metadata, acknowledged entries survive).",
+        note="Process death is modelled by fencing the old storage handle (model store) or by dropping the runtime and every handle (real backends, stops between requests only); fsync durability of the bundled backends is outside (tmpfs). A tombstone the group's start-up purge may legitimately drop (older than the newest entry by the forgiveness period, gone from set and storage alike) is not counted as lost.", ref="3 C07"),
     "C08": dict(engine="E1-pure+E2-actor", technique=PBT + " (invariants around purge_old_deletes on generated hour-scale histories)",
         text="300k (quick) / 20M (thorough) single-replica histories spanning hours with purges at generated points (live set unchanged, only tombstones returned and removed, never a live id, stale operations from the deleting node refused ever after), plus 100k / 5M cluster timelines on real keyspace actors (timely deliveries by construction, direct and repair paths, clock skew) run twice, with and without purge calls: identical documents on every replica and equal to the LWW model; the store counts any attempt to purge a live id.",
         note="Timeliness (delay + skew < forgiveness period) holds by construction of the timelines; the hourly purge task of a full node is not used, purge calls are generated instead.", ref="3 C08"),
